@@ -313,6 +313,17 @@ func (f *Func) failureReturnsError(call *ast.CallExpr) bool {
 					says = true
 				}
 			}
+			// `if err != nil || other { return … }`: the true edge does not imply err != nil, but the false edge implies
+			// err == nil, so the true edge is where a failure goes
+			if !says {
+				var other []Atom
+				splitAtoms(cond, k != 0, &other)
+				for _, a := range other {
+					if AtomSaysNil(a, true, func(e ast.Expr) bool { return f.ObjOf(e) == errObj }) {
+						says = true
+					}
+				}
+			}
 			if !says || g.writtenBetween(errObj, cv, ev-1) {
 				continue
 			}
